@@ -315,6 +315,8 @@ def dbeta(x, shape1, shape2, log=False):
     See
     https://stat.ethz.ch/R-manual/R-patched/library/stats/html/Beta.html
     """
+    if log:
+        return st.beta.logpdf(x, shape1, shape2)
     return st.beta.pdf(x, shape1, shape2)
 
 def rbeta(n, shape1, shape2, seed=None):
